@@ -416,6 +416,8 @@ def run(ctx):
     d6_keepalive(ctx)
     d6_eof_is_real(ctx)
     d6_read_awaited(ctx)
+    from .common import delegating_wrapper_rule
+    delegating_wrapper_rule(ctx, 'C08-D6')
     d7_who_reads(ctx)
     ck.rule('C08-D8', 'content coding removal is independent of the segmentation and truncation is detectable: the decoder rules of C19 (format decision on a prefix every first piece contains, decode exactly the content bytes, flush on every framing, zlib errors become protocol errors, eof consulted)')
     from . import c19
